@@ -104,6 +104,24 @@ def run_shard(spec):
             ch = chr(c)
             if ch.upper() not in ALPHABET and ch not in "\"\\":
                 rej.append({"kind": "rej_char", "ch": ch, "pos": c % 3})
+        # non-ASCII: every BMP character whose upper-case form is several letters (ligatures, sharp s, ...), Latin-1/Extended-A,
+        # full-width forms, and a random sample; characters whose case mapping is one alphabet letter (U+017F, U+0131, U+212A,
+        # U+0130) are "folding case" under one reading and "outside the alphabet" under another: accepted-and-packed-as-that-letter
+        # or rejected are both taken, a crash or any other word is not
+        pool = [c for c in range(0x80, 0x10000) if not 0xD800 <= c < 0xE000 and len(chr(c).upper()) != 1]
+        pool += list(range(0xA1, 0x250)) + list(range(0xFF01, 0xFF5F)) + [0x212A, 0x0130, 0x0131, 0x017F, 0x1E9E, 0x2126, 0x212B]
+        pool += [rnd.randrange(0x250, 0xD800) for _ in range(150)]
+        for c in sorted(set(pool)):
+            ch = chr(c)
+            if ch.isspace() or ch in "\x85\u2028\u2029\x1c\x1d\x1e\x1f":
+                continue
+            folds = {f for f in (ch.upper(), ch.lower().upper(), ch.casefold().upper()) if len(f) == 1 and f in ALPHABET}
+            if folds:
+                rej.append({"kind": "amb_char", "ch": ch, "pos": c % 3, "folds": sorted(folds)})
+                rej.append({"kind": "amb_R", "ch": ch, "folds": sorted(folds)})
+            else:
+                rej.append({"kind": "rej_char", "ch": ch, "pos": c % 3})
+                rej.append({"kind": "rej_Rforeign", "ch": ch})
         for n in list(range(40, 64)) + [64, 100, 255, 1000]:
             rej.append({"kind": "rej_code", "n": n})
         for n in range(0, 40):
@@ -211,6 +229,24 @@ def run_case(case, cnt=None):
         elif kind == "rej_long":
             src = f'.word ^R{case["lit"]}\n'
             want = "invalid-string"
+        elif kind in ("amb_char", "amb_R"):
+            if kind == "amb_char":
+                t = list("AB")
+                t.insert(case["pos"], case["ch"])
+                src = f'.rad50 "{"".join(t)}"\n'
+                exps = [[ALPHABET.index(x if x != case["ch"] else f) for x in t] for f in case["folds"]]
+            else:
+                src = f'.word ^R{case["ch"]}\n'
+                exps = [[ALPHABET.index(f)] for f in case["folds"]]
+            o = asm.assemble([("/c15/main.mac", src)])
+            if cnt is not None:
+                cnt["case_mapped_foreign"] = cnt.get("case_mapped_foreign", 0) + 1
+            if o.cls == "ok":
+                if o.code not in [b"".join(w.to_bytes(2, "little") for w in _expect_words(e)) for e in exps]:
+                    viol(f"{src!r} (U+{ord(case['ch']):04X}) accepted but packed as {o.code.hex()}, which is not the letter it case-maps to ({case['folds']})")
+            elif o.cls != "fail":
+                viol(f"{src!r} (U+{ord(case['ch']):04X}) neither packed nor rejected: {o.brief()}")
+            return out
         else:
             src = f'.word ^R{case["ch"]}\n'
             want = "ANY"
